@@ -3,6 +3,8 @@ package c14
 import (
 	"context"
 	"fmt"
+	"runtime"
+	"strings"
 	"sync"
 	"sync/atomic"
 	"time"
@@ -216,4 +218,168 @@ func doubleStopCase(k *engine.Case) {
 		return
 	}
 	k.Logf("the call to lane %d after the second Stop was refused: %v", n-1, err)
+}
+
+// multiExecCase: executors are independent instances. Several of them (of the same and of
+// different types) run at the same time, each with its own callers; every caller must get the
+// result of its own call, every call runs exactly once, and calls of one lane do not overlap.
+// (State shared between instances - package-level scratch space for call arguments, pooled
+// cells - only shows when two executors execute at the same moment.)
+func multiExecCase(k *engine.Case) {
+	r := k.R
+	ne := 2 + r.Intn(6)
+	sameType := r.Intn(2) == 0
+	var exs []executor
+	for i := 0; i < ne; i++ {
+		if sameType {
+			rq := async.NewRunnerQ(async.WithQSize(0), async.WithName("verif"))
+			rq.Run()
+			exs = append(exs, &runnerEx{rq, 0}) // the reflective AsyncCall form
+		} else {
+			exs = append(exs, newExecutor(r, 0))
+		}
+	}
+	callers := 2 + r.Intn(3)
+	per := 150
+	k.Logf("%d executors running at the same time (all reflective runner queues: %v), %d callers each, %d calls per caller", ne, sameType, callers, per)
+	k.Nontrivial()
+	var mu sync.Mutex
+	bad, first := 0, ""
+	report := func(f string, a ...any) {
+		mu.Lock()
+		bad++
+		if first == "" {
+			first = fmt.Sprintf(f, a...)
+		}
+		mu.Unlock()
+	}
+	var wg sync.WaitGroup
+	start := make(chan struct{})
+	var executed int64
+	for ei, ex := range exs {
+		inLane := make([]int32, ex.Lanes())
+		for c := 0; c < callers; c++ {
+			ei, ex, c := ei, ex, c
+			wg.Add(1)
+			go func() {
+				defer wg.Done()
+				<-start
+				for n := 0; n < per; n++ {
+					want := (ei*100+c)*100000 + n
+					hash := want
+					lane := ex.IndexOf(hash)
+					runs := int32(0)
+					v, err := ex.Submit(context.Background(), hash, func(ctx context.Context, laneArg int) (interface{}, error) {
+						if atomic.AddInt32(&inLane[lane], 1) != 1 {
+							report("%s #%d: two calls of lane %d ran at the same time", ex.Name(), ei, lane)
+						}
+						atomic.AddInt32(&runs, 1)
+						atomic.AddInt64(&executed, 1)
+						runtime.Gosched()
+						atomic.AddInt32(&inLane[lane], -1)
+						return want, nil
+					})
+					if err != nil && atomic.LoadInt32(&runs) == 0 && strings.Contains(err.Error(), "full") {
+						// a bounded queue (proc channel) may refuse when full: not accepted, try again
+						runtime.Gosched()
+						n--
+						continue
+					}
+					if err != nil || v != want || atomic.LoadInt32(&runs) != 1 {
+						report("%s #%d caller %d: call %d returned (%v, %v) and ran %d time(s); its own call returns (%d, nil)", ex.Name(), ei, c, n, v, err, atomic.LoadInt32(&runs), want)
+						return
+					}
+				}
+			}()
+		}
+	}
+	close(start)
+	wg.Wait()
+	for _, ex := range exs {
+		ex.Stop()
+		ex.WaitDone()
+	}
+	k.Evals(int64(ne * callers * per))
+	k.Count("multi_exec_calls", atomic.LoadInt64(&executed))
+	if bad > 0 {
+		k.Fail("wrong-result", "%d problem(s) with %d executors running at the same time; first: %s", bad, ne, first)
+	}
+}
+
+// ctxHandoffCase: a callee passes the context it was called with to another goroutine (a
+// follow-up it does not wait for), and that goroutine submits a call for the same lane with it
+// while the callee is still running. Whatever the context carries, the follow-up is a call
+// like any other: it must not start before the running call has ended ("calls on one lane
+// never overlap"), and it completes afterwards with its own result.
+func ctxHandoffCase(k *engine.Case) {
+	r := k.R
+	ex := newExecutor(r, []int{0, 4}[r.Intn(2)])
+	hash := []int{0, 1, 7, -3}[r.Intn(4)]
+	k.Logf("executor=%s: callee hands its context to a goroutine that submits a call for the same lane (hash %d)", ex.Name(), hash)
+	k.Nontrivial()
+	d := engine.NewDriver(Q, k)
+	gate := make(chan struct{})
+	var aEnded, bStartedEarly, bRan int32
+	var follow *engine.Op
+	var fmu sync.Mutex
+	opA := d.Spawn("call A", func() any {
+		v, err := ex.Submit(context.Background(), hash, func(ctx context.Context, laneArg int) (interface{}, error) {
+			fmu.Lock()
+			follow = d.Spawn("follow-up call B (callee's context)", func() any {
+				v, err := ex.Submit(ctx, hash, func(context.Context, int) (interface{}, error) {
+					if atomic.LoadInt32(&aEnded) == 0 {
+						atomic.StoreInt32(&bStartedEarly, 1)
+					}
+					atomic.AddInt32(&bRan, 1)
+					return 222, nil
+				})
+				return callRes{v, err}
+			})
+			fmu.Unlock()
+			<-gate
+			atomic.StoreInt32(&aEnded, 1)
+			return 111, nil
+		})
+		return callRes{v, err}
+	})
+	stop := func() {
+		ex.Stop()
+		w := d.Spawn("WaitDone", func() any { ex.WaitDone(); return nil })
+		d.Quiesce()
+		_ = w
+	}
+	if !d.Quiesce() {
+		close(gate)
+		return
+	}
+	k.Evals(1)
+	k.Count("ctx_handoff_cases", 1)
+	if atomic.LoadInt32(&bStartedEarly) != 0 {
+		k.Fail("lane-overlap", "%s: a call submitted (with the running callee's context, from another goroutine) for the lane of a call that is still running was executed before that call ended", ex.Name())
+		close(gate)
+		d.Quiesce()
+		stop()
+		return
+	}
+	close(gate)
+	if !d.Quiesce() {
+		return
+	}
+	fmu.Lock()
+	f := follow
+	fmu.Unlock()
+	if !opA.Done() || f == nil || !f.Done() {
+		k.Fail("caller-stuck", "%s: after the running call ended, done(A)=%v, follow-up submitted=%v done=%v", ex.Name(), opA.Done(), f != nil, f != nil && f.Done())
+		return
+	}
+	ra, _ := opA.Result().(callRes)
+	rb, _ := f.Result().(callRes)
+	if ra.err != nil || ra.v != 111 {
+		k.Fail("wrong-result", "%s: call A returned (%v, %v), its callee returned (111, nil)", ex.Name(), ra.v, ra.err)
+	}
+	// the follow-up may be refused (bounded queue) - but if it ran, it ran once, after A, with its own result
+	if atomic.LoadInt32(&bRan) > 1 || (rb.err == nil && (rb.v != 222 || atomic.LoadInt32(&bRan) != 1)) {
+		k.Fail("wrong-result", "%s: follow-up call returned (%v, %v) and ran %d time(s)", ex.Name(), rb.v, rb.err, atomic.LoadInt32(&bRan))
+	}
+	stop()
 }
